@@ -1,7 +1,7 @@
-"""C09 witnesses.  The recorded findings of C09 are exercised by harness/c09.py itself (finding_witnesses);
-they are registered here as corpus witnesses only once the maintainer has merged findings_proposed/C09.txt
-into KNOWN_FINDINGS.txt (an unlisted failing witness would otherwise be reported as a violation).
-The regression witnesses below must pass."""
+"""C09 witnesses.  The recorded findings of C09 (`finding` lines of KNOWN_FINDINGS.txt) are expected to fail and are
+exercised through harness/c09.py finding_witnesses; the witnesses of the three defects repaired upstream
+(`fixed:` lines: tcp-attribute-error 9e84fe8, mnr-sets-start-offset 41b1329, sn-identity 434048d) and the
+regression witnesses below must pass."""
 import os, re
 from witnesses import witness
 
@@ -21,8 +21,46 @@ def _mk(fid):
     return f
 
 
+FIXED = ("tcp-attribute-error", "mnr-sets-start-offset", "sn-identity")
 for _fid in sorted(_listed()):
-    witness("C09", _fid)(_mk(_fid))
+    if _fid not in FIXED:
+        witness("C09", _fid)(_mk(_fid))
+
+_BASE = dict(start=None, rows=None, nofill=False, nopad=False, fonts=None)
+def _paras(r):
+    return [p for d in r[1]["divs"] for p in d] if r[0] == "ok" else None
+
+
+@witness("C09", "tcp-attribute-error")
+def _():
+    import c09
+    from fractions import Fraction
+    r = c09.run_reader(c09.gsi(tcp=b"0000XX00") + c09.tti(), dict(_BASE, start="TCP"))
+    ps = _paras(r)
+    if ps is None: return f"invalid GSI TCP with program_start_tc=TCP: {r}"
+    if len(ps) != 1 or ps[0][4] != (Fraction(1), Fraction(2)): return f"programme start is not 0: {ps}"
+
+
+@witness("C09", "mnr-sets-start-offset")
+def _():
+    import c09
+    from fractions import Fraction
+    # open subtitles, MNR not a number: 23 rows, no shift; a subtitle before 23 s must be kept
+    r = c09.run_reader(c09.gsi(dsc=b"0", mnr=b"XX") + c09.tti(vp=20) + c09.tti(sn=1, tci=(0, 0, 30, 0), tco=(0, 0, 31, 0), vp=20), dict(_BASE, rows="MNR"))
+    ps = _paras(r)
+    if ps is None: return f"invalid GSI MNR with max_row_count=MNR: {r}"
+    if [p[4] for p in ps] != [(Fraction(1), Fraction(2)), (Fraction(30), Fraction(31))]: return f"subtitles dropped or shifted: {[p[4] for p in ps]}"
+    h = r[1]["regions"][0][3]
+    if abs(h - Fraction(20 * 80, 23)) > Fraction(1, 10**9): return f"region height {float(h)} is not that of 23 rows"
+
+
+@witness("C09", "sn-identity")
+def _():
+    import c09
+    a = _paras(c09.run_reader(c09.gsi() + c09.tti(sn=5, tf=b"A") + c09.tti(sn=5, tf=b"B", tci=(0, 0, 3, 0), tco=(0, 0, 4, 0)), _BASE))
+    b = _paras(c09.run_reader(c09.gsi() + c09.tti(sn=300, tf=b"A") + c09.tti(sn=300, tf=b"B", tci=(0, 0, 3, 0), tco=(0, 0, 4, 0)), _BASE))
+    if a is None or b is None: return "reader failed"
+    if len(a) != len(b): return f"{len(a)} paragraph(s) for SN 5,5 but {len(b)} for SN 300,300"
 
 
 @witness("C09", "stl-basic-subtitle")
